@@ -43,7 +43,16 @@ class _SimTime:
     def sleep(self, d):
         self._sim.yield_point('sleep')
         self._sim.count('sleep')
-        self._sim.advance(float(d))
+        # a sleep may legally return late (loaded machine, suspended process): seeded oversleep / clock jump
+        extra = 0.0
+        k = self._sim.d.draw('clock.oversleep', 40)
+        if k == 0:
+            extra = float(self._sim.d.draw('clock.jump', 3600))
+            self._sim.count('clock_jump')
+        elif k < 6:
+            extra = self._sim.d.draw('clock.late', 2000) / 1000.0
+            self._sim.count('oversleep')
+        self._sim.advance(float(d) + extra)
 
     def time(self):
         return 1.7e9 + self._sim.now
@@ -52,6 +61,23 @@ class _SimTime:
         return self._sim.now
 
     perf_counter = monotonic
+
+    def __getattr__(self, name):
+        import time as _t
+        return getattr(_t, name)
+
+
+class _ShortSleep:
+    """time module stand-in for runs with the REAL pool: really sleeps, but only 20 ms per poll."""
+
+    def __init__(self, sim):
+        self._sim = sim
+
+    def sleep(self, d):
+        import time as _t
+        self._sim.count('sleep')
+        self._sim.now += float(d)
+        _t.sleep(0.02)
 
     def __getattr__(self, name):
         import time as _t
@@ -645,9 +671,13 @@ def simulated_process(spec, phase, root):
     sim.crash_action = crash_now
     alloc.install(spec.get('poison'))
     mon.install()
-    core_ranking.time = _SimTime(sim)
-    core_ranking.timer = lambda: sim.now
-    task_ranking.Pool = pool_factory
+    if spec.get('real_pool'):
+        # stub-fidelity run (DESIGN 4.5): the real pathos pool with real forked workers; only the polling sleep is shortened
+        core_ranking.time = _ShortSleep(sim)
+    else:
+        core_ranking.time = _SimTime(sim)
+        core_ranking.timer = lambda: sim.now
+        task_ranking.Pool = pool_factory
     fs.install()
     argv = build_argv(cli, os.path.join(root, 'data'))
     old_argv = sys.argv
